@@ -191,6 +191,13 @@ bool ops_repl(World &w, const Op &o) {
       return true;
     }
     bool import_support = fl & HWLOC_TOPOLOGY_FLAG_IMPORT_SUPPORT;
+    // NO_DISTANCES / NO_MEMATTRS / NO_CPUKINDS make the loader ignore what the XML provides: with the same flags the reload cannot hold
+    // the distances / memattrs / kinds the application had added, by documented design; those sections are outside the relation then
+    bool dropped = false;
+    if (fl & HWLOC_TOPOLOGY_FLAG_NO_DISTANCES) { if (!ds.dists.empty()) dropped = true; ds.dists.clear(); dd.dists.clear(); }
+    if (fl & HWLOC_TOPOLOGY_FLAG_NO_MEMATTRS) { if (!ds.memattrs.empty()) dropped = true; ds.memattrs.clear(); dd.memattrs.clear(); }
+    if (fl & HWLOC_TOPOLOGY_FLAG_NO_CPUKINDS) { if (!ds.kinds.empty()) dropped = true; ds.kinds.clear(); dd.kinds.clear(); }
+    if (dropped) r.count("probe.xml_sections_ignored_by_flags");
     std::string a = ds.text(true), b = dd.text(true);
     if (a != b && memccs_normalised(ds).text(true) == memccs_normalised(dd).text(true)) viol0(w, "C05", "xml.dump_differs.memory_child_complete_cpuset", "only the complete_cpuset of memory objects differs: the exported topology has a NUMA node/MemCache whose complete_cpuset is not its parent's, XML import always copies the parent's");
     if (a != b && has_redundant_group(ds) && dd.depth < ds.depth) viol0(w, "C05", "xml.dump_differs.redundant_group_level", "the exported topology holds a mergeable Group with the cpuset of its parent/only child (inserted by insert_group_object); the reload merges that level (depth %d -> %d)", ds.depth, dd.depth);
@@ -215,12 +222,12 @@ bool ops_repl(World &w, const Op &o) {
     std::string xml2, p2; int rc3; std::vector<UdRec> e2; g_exported = &e2; bool ok2 = export_xml(w, D, false, false, xml2, p2, &rc3); g_exported = nullptr;
     std::string xa = xml, xb = xml2;
     if (!import_support) { xa = strip_support(xa); xb = strip_support(xb); }   // by design the reloaded topology then advertises the XML loader's own support bits
-    if (!ok2 || xa != xb) { std::string la, lb; first_diff(xa, xb, la, lb); viol0(w, "C05", "xml.reexport_differs", "re-export of the reloaded topology is not byte-identical: '%s' vs '%s'", la.substr(0, 600).c_str(), lb.substr(0, 600).c_str()); }
+    if (!dropped && (!ok2 || xa != xb)) { std::string la, lb; first_diff(xa, xb, la, lb); viol0(w, "C05", "xml.reexport_differs", "re-export of the reloaded topology is not byte-identical: '%s' vs '%s'", la.substr(0, 600).c_str(), lb.substr(0, 600).c_str()); }
     // twins from now on
     D.userdata = S.userdata;
     if (S.twin >= 0 && w.r[S.twin].twin == si) w.r[S.twin].twin = -1;
     bool same_filters = true; for (int i = 0; i < HWLOC_OBJ_TYPE_MAX; i++) if (ds.filters[i] != dd.filters[i]) same_filters = false;
-    if (same_filters) { S.twin = di; D.twin = si; S.twin_kind = D.twin_kind = 2; r.count("probe.xml_twin_lockstep_possible"); }
+    if (same_filters && !dropped) { S.twin = di; D.twin = si; S.twin_kind = D.twin_kind = 2; r.count("probe.xml_twin_lockstep_possible"); }
     Dump ds2; take_dump(S.t, ds2, DUMP_FULL); S.last = ds2; S.last_text = ds2.text();
     take_dump(nt, D.last, DUMP_FULL); D.last_text = D.last.text();
     derive_models(w, si, di, false);
